@@ -70,6 +70,11 @@ class ConcreteSym:
         assert len(v) == n, (len(v), n)
         return v
 
+    def bytes_in(self, n: int, allowed, name: str = "b") -> bytes:
+        v = self.bytes(n, name)
+        assert all(b in allowed for b in v)
+        return v
+
     def ascii(self, n: int, name: str = "s", hi: int = 127) -> str:
         v = "".join(map(chr, self._next("str")))
         assert len(v) == n
@@ -117,6 +122,21 @@ class SymbolicSym:
 
         with NoTracing():
             vs = [self._var(f"{name}{i}", 0, 255) for i in range(n)]
+            self.created.append(("bytes", vs))
+            if n == 0:
+                return b""
+            return SymbolicBytes([SymbolicInt(v) for v in vs])
+
+    def bytes_in(self, n: int, allowed, name: str = "b"):
+        """n symbolic bytes, each constrained (in the solver, without forking) to the given byte values."""
+        import z3
+        from crosshair.libimpl.builtinslib import SymbolicBytes, SymbolicInt
+        from crosshair.tracers import NoTracing
+
+        with NoTracing():
+            vs = [self._var(f"{name}{i}", 0, 255) for i in range(n)]
+            for v in vs:
+                self.space.add(z3.Or(*[v == int(a) for a in allowed]))
             self.created.append(("bytes", vs))
             if n == 0:
                 return b""
